@@ -6,26 +6,10 @@ import (
 	"runtime/debug"
 )
 
+// CODEC_DEBUG=1 prints the stack of every panic caught by guard() (development aid for `codecdrv probe`).
 func init() {
 	if os.Getenv("CODEC_DEBUG") == "" {
 		return
 	}
 	debugHook = func(r interface{}) { fmt.Println(r); debug.PrintStack() }
-}
-
-func init() {
-	if os.Getenv("CODEC_DBG_DET") == "" {
-		return
-	}
-	dbgDet = func() {
-		t := registry["WOHeader"]
-		sh := baseline(t)
-		sh["auxpow"] = "btc"
-		for i := 0; i < 4; i++ {
-			o := t.Build(sh, &Gen{Seed: 1000, Type: t.Name})
-			h, _ := t.Hash(o)
-			b, _ := t.Codecs[0].Enc(o)
-			fmt.Println(h, len(b))
-		}
-	}
 }
